@@ -76,7 +76,9 @@ def rand_meta(rng, depth):
         for _ in range(rng.randint(0, 3)):
             k = rng.choice(["k", "note", "ünï", "α β", "n", "arr", "f", "sub", "type", "q" * 40, "x.y", "rate%2Fhz", "50%2F50", "%", "%25", "2024-03-01",
                             "group", "name", "value", "self", "key", "data", "dtype", "\ufeffk", "k\ufeff", "a->b", "#tag", "..", "{0}", "input_type",
-                            "output_type", "weight", "shape", "nodes", "edges"])
+                            "output_type", "weight", "shape", "nodes", "edges",
+                            # key spellings a "private / reserved" convention might single out
+                            "_origin", "_", "__dict__", "__class__", "_k", "k_", "-k", "~k", "$ref", "@id", "!tag", "k!", "K", "TYPE", "Type"])
             r = rng.random()
             if r < 0.2:
                 out[k] = rng.choice(["", "text", "日本語", "a\nb", "same", "hidden layer ", " ", "    ", " lead", "tab\t", "trail \n",
